@@ -94,45 +94,43 @@ def rule_valid_first(ctx, py):
 
 def rule_kind(ctx, py):
     R = "C16.KIND"
+    from .. import pysym
+    P = lambda t: ast.parse(t, mode="eval").body
     f = py.fn("coarsegrain.coarsegrain_system")
     aug = [n for n in ast.walk(f) if isinstance(n, ast.AugAssign) and isinstance(n.op, ast.Add) and
            isinstance(n.target, ast.Subscript)]
     ctx.need(len(aug) >= 2, R, "coarsegrain_system: aggregation statements not found")
-    # loop variables and their ranges
-    rng = {}
-    for n in ast.walk(f):
-        if isinstance(n, ast.For) and isinstance(n.target, ast.Name) and isinstance(n.iter, ast.Call) and \
-                pyfe.call_name(n.iter) == "range" and len(n.iter.args) == 1:
-            rng.setdefault(n.target.id, []).append((n, pyfe.src(n.iter.args[0])))
-    defs = {st.targets[0].id: pyfe.src(st.value) for st in ast.walk(f) if isinstance(st, ast.Assign) and
-            isinstance(st.targets[0], ast.Name)}
     for a in aug:
-        lhs = py_poly(a.target.slice)
-        srcs = [s for s in ast.walk(a.value) if isinstance(s, ast.Subscript)]
+        srcs = [s_ for s_ in ast.walk(a.value) if isinstance(s_, ast.Subscript)]
         ctx.need(len(srcs) == 1, R, "aggregation right-hand side is not one element")
-        rhs = py_poly(srcs[0].slice)
-        # enclosing loops
         loops = {}
-        p = pyfe.parent(a)
-        while p is not None and p is not f:
-            if isinstance(p, ast.For) and isinstance(p.target, ast.Name):
-                loops[p.target.id] = pyfe.src(p.iter.args[0]) if isinstance(p.iter, ast.Call) and p.iter.args else "?"
-            p = pyfe.parent(p)
-        cell = [v for v, r in loops.items() if r.endswith("space.size()")]
-        spec = [v for v, r in loops.items() if r in ("nspecies",) or r.endswith("nspecies()")]
-        ctx.need(len(cell) == 1 and len(spec) == 1, R, "aggregation loops over (cells, species) not recognised")
-        i, s = cell[0], spec[0]
-        fine = loops[i]
-        want_rhs = Poly.sym(s) * Poly.sym(fine) + Poly.sym(i)
-        want_lhs = Poly.sym(s) * Poly.sym("cgspace.size()") + Poly.sym("index_map[%s]" % i)
-        ctx.check(rhs == want_rhs, R, srcs[0], f._qual, pyfe.src(srcs[0])[:80],
-                  "fine entry (species %s, cell %s): %s*%s + %s" % (s, i, s, fine, i),
-                  "reads index %r, expected species*size + cell of the fine grid (%r)" % (rhs, want_rhs))
-        ctx.check(lhs == want_lhs, R, a.target, f._qual, pyfe.src(a.target)[:80],
-                  "group entry (species %s, group index_map[%s]) with the coarse-grained size as stride" % (s, i),
-                  "writes index %r, expected species*cgsize + map[cell] (%r)" % (lhs, want_lhs))
-        ctx.check(defs.get("cgspace", "").startswith("coarsegrain_grid(system.space"), R, f, f._qual,
-                  "cgspace = " + defs.get("cgspace", "?")[:50], "stride is the size of the space built from this map", "")
+        p_ = pyfe.parent(a)
+        while p_ is not None and p_ is not f:
+            if isinstance(p_, ast.For) and isinstance(p_.target, ast.Name):
+                loops[p_.target.id] = pysym.isrc(p_.iter, f)
+            p_ = pyfe.parent(p_)
+        cell = [v for v, r in loops.items() if r == "range(system.space.size())"]
+        spec = [v for v, r in loops.items() if r == "range(system.network.nspecies())"]
+        ctx.need(len(cell) == 1 and len(spec) == 1, R, "aggregation loops over (cells, species) not recognised: %s" % loops)
+        i, s_ = cell[0], spec[0]
+        lhs = pysym.frat(a.target.slice, f)
+        rhs = pysym.frat(srcs[0].slice, f)
+        want_rhs = pysym.frat(P("%s * system.space.size() + %s" % (s_, i)), f)
+        want_lhs = pysym.frat(P("%s * cgspace.size() + index_map[%s]" % (s_, i)), f)
+        ctx.check(rhs.equals(want_rhs), R, srcs[0], f._qual, pyfe.src(srcs[0])[:80],
+                  "fine entry (species %s, cell %s): species*size + cell" % (s_, i),
+                  "reads index %r, expected species*size + cell of the fine grid" % (rhs,))
+        ctx.check(lhs.equals(want_lhs), R, a.target, f._qual, pyfe.src(a.target)[:80],
+                  "group entry (species %s, group index_map[%s]) with the coarse-grained size as stride" % (s_, i),
+                  "writes index %r, expected species*cgsize + map[cell]" % (lhs,))
+        base = pysym.isrc(srcs[0].value, f)
+        tgt = pyfe.src(a.target.value)
+        okb = (tgt == "cgstate" and base == "system.state.value") or (tgt == "cgchstt" and base == "system.chemostats")
+        ctx.check(okb, R, a, f._qual, "%s accumulates %s" % (tgt, base), "amounts into amounts, flags into flags",
+                  "%s accumulates entries of %s" % (tgt, base))
+    ctx.check(pysym.isrc(P("cgspace"), f).startswith("coarsegrain_grid(system.space, index_map)"), R, f, f._qual,
+              "cgspace = coarsegrain_grid(system.space, index_map)", "stride is the size of the space built from this map",
+              "the coarse space is not built from this system's grid and this map")
     # allocation extents
     for name in ("cgstate", "cgchstt"):
         d = None
@@ -141,10 +139,11 @@ def rule_kind(ctx, py):
                     isinstance(st.value, ast.ListComp):
                 d = st.value
         ctx.need(d is not None, R, "allocation of %s not found" % name)
-        e = py_poly(d.generators[0].iter.args[0])
-        ctx.check(e == Poly.sym("cgspace.size()") * Poly.sym("nspecies"), R, d, f._qual,
-                  "%s has %s entries" % (name, pyfe.src(d.generators[0].iter.args[0])), "groups x species", "wrong extent")
-    ctx.floor(R, 6)
+        e = pysym.frat(d.generators[0].iter.args[0], f)
+        w = pysym.frat(P("cgspace.size() * system.network.nspecies()"), f)
+        ctx.check(e.equals(w), R, d, f._qual, "%s has %s entries" % (name, pyfe.src(d.generators[0].iter.args[0])),
+                  "groups x species", "wrong extent %r" % (e,))
+    ctx.floor(R, 8)
 
 
 def rule_clamp(ctx, py):
